@@ -193,6 +193,31 @@ def expected_selection(classes, tagged, check, names=None):
     return sorted(run), sorted(listed) if check else []
 
 
+def all_methods(classes, i):
+    c = classes[i]
+    d = dict(all_methods(classes, c['base'])) if c['base'] is not None else {}
+    for m, tg in c['own']:
+        d[m] = tg
+    return d
+
+
+def class_tagged(classes, i):
+    c = classes[i]
+    return c['tag'] or (c['base'] is not None and class_tagged(classes, c['base']))
+
+
+def expected_for_method_name(classes, tagged, check, name):
+    """A single Class.method name.  Returns the list of tests that must run, or None where the statement leaves it
+    open (an untagged method named individually under the tagged option).  With the list-tagged option nothing runs."""
+    cname, mname = name.split('.')
+    i = [k for k, c in enumerate(classes) if c['name'] == cname][0]
+    if check:
+        return []
+    if tagged and not (class_tagged(classes, i) or all_methods(classes, i)[mname]):
+        return None
+    return [name]
+
+
 MODULE_TEMPLATE = '''
 import sys
 sys.path.insert(0, %(repo)r)
@@ -268,12 +293,21 @@ class C19(core.Prop):
         r = rng.random()
         if r < 0.6:
             return {'kind': 'argv', 'argv': gen_argv(rng)}
-        return {'kind': 'module', 'classes': gen_module(rng), 'tagged': rng.random() < 0.6, 'check': rng.random() < 0.3}
+        c = {'kind': 'module', 'classes': gen_module(rng), 'tagged': rng.random() < 0.6, 'check': rng.random() < 0.3}
+        if rng.random() < 0.3:
+            # loaded by name, as unittest does for names on the command line: class names and Class.method names
+            cl = c['classes']
+            cands = [k['name'] for k in cl] + ['%s.%s' % (k['name'], m) for i, k in enumerate(cl) for m in sorted(all_methods(cl, i))]
+            c['names'] = sorted(set(rng.choice(cands) for _ in range(rng.choice([1, 1, 2]))))
+            if len([n for n in c['names'] if '.' in n]) > 1 or (len(c['names']) > 1 and any('.' in n for n in c['names'])):
+                c['names'] = c['names'][:1]
+        return c
 
     def model_ops(self, case):
         if case['kind'] == 'argv':
             return [{'op': 'c19.parse_argv', 'argv': case['argv']}]
-        cl = sorted(range(len(case['classes'])), key=lambda i: case['classes'][i]['name'])
+        if case.get('names'):
+            return []       # narrowing by name is unittest's: not modelled, oracle only
         return [{'op': 'c19.select', 'classes': case['classes'], 'tagged': case['tagged'], 'check': case['check']}]
 
     def impl_outputs(self, case):
@@ -289,7 +323,10 @@ class C19(core.Prop):
             loader = rtc.TaggedTestLoader(case['check'], printer=printed.append)
         else:
             loader = unittest.TestLoader()
-        suite = loader.loadTestsFromModule(mod)
+        if case.get('names'):
+            suite = loader.loadTestsFromNames(case['names'], mod)
+        else:
+            suite = loader.loadTestsFromModule(mod)
         return [{'run': flatten(suite), 'listed': sorted(p.split('.')[-1] for p in printed)}]
 
     def canon_model(self, case, outs):
@@ -346,8 +383,18 @@ class C19(core.Prop):
             return F
         # module: loader selection against the independent expectation, in-process
         got = self.impl_outputs(case)[0]
-        run, listed = expected_selection(case['classes'], case['tagged'], case['check'])
         got_run = sorted('%s.%s' % (a, b) for a, b in got['run'])
+        names = case.get('names')
+        if names and '.' in names[0]:
+            self.count('module_method_name')
+            run = expected_for_method_name(case['classes'], case['tagged'] or case['check'], case['check'], names[0])
+            if not (case['tagged'] or case['check']):
+                run = [names[0]]
+            if run is not None and got_run != run:
+                fail('select-run', 'loading %r selects %r, expected %r' % (names, got_run, run),
+                     'select-run:method-name' + (':list-tagged' if case['check'] else ''))
+            return F
+        run, listed = expected_selection(case['classes'], case['tagged'], case['check'], names)
         if got_run != run:
             fail('select-run', 'loader selects %r, expected %r' % (got_run, run))
         if len(got_run) != len(set(got_run)):
@@ -380,6 +427,12 @@ def subprocess_cases(rng, n):
         if rng.random() < 0.35:
             names = [rng.choice([c['name'] for c in classes])]
             args += names
+        elif rng.random() < 0.3:
+            # an individual test named as Class.method
+            cands = ['%s.%s' % (c['name'], m) for i, c in enumerate(classes) for m in sorted(all_methods(classes, i))]
+            if cands:
+                names = [rng.choice(cands)]
+                args += names
         if rng.random() < 0.3:
             args.append(rng.choice(['--verbose', '--failfast']))
         out.append({'kind': 'run', 'classes': classes, 'args': args, 'names': names,
@@ -391,6 +444,13 @@ def oracle_run(case):
     F = []
     fail = lambda clause, detail, key=None: F.append(core.Failure(clause, case, detail, key or clause))
     r = run_module(case['classes'], case['args'])
+    if case['names'] and '.' in case['names'][0]:
+        run = expected_for_method_name(case['classes'], case['tagged'], case['check'], case['names'][0])
+        if run is not None and sorted(r['ran']) != run:
+            fail('run-executed', 'args %r executed %r expected %r (rc=%s stderr=%s)'
+                 % (case['args'], sorted(r['ran']), run, r['rc'], r['stderr'][-200:]),
+                 'run-executed:method-name' + (':list-tagged' if case['check'] else ''))
+        return F
     run, listed = expected_selection(case['classes'], case['tagged'], case['check'], case['names'])
     if sorted(r['ran']) != run:
         fail('run-executed', 'args %r executed %r expected %r (rc=%s stderr=%s)'
